@@ -284,10 +284,16 @@ def contract_process_model(ctx, ekf, dt, state, covariance, control, result, sta
         stats.inc("unusable_reference")
         return out
     P = cov_matrix(covariance, ctx.state)
-    Pn, A = O.predict_ref(G, SG, Vm, SV, P, ctx.M())
+    fl = getattr(ctx, "floor", 1.0)
+    jac_abs = None
+    if fl < 1.0:
+        mag = max([1.0, float(np.max(SG, initial=0.0)), float(np.max(SV, initial=0.0))]
+                  + [abs(float(v_)) for v_ in list(sd.values()) + list(cd.values())])
+        jac_abs = 1e-6 * mag   # ~4.5 eps * magnitude / TOL
+    Pn, A = O.predict_ref(G, SG, Vm, SV, P, ctx.M(), jac_abs=jac_abs)
     got_P = cov_matrix(result.covariance, ctx.state)
     out += check_matrix(got_P, Pn, A, "process_model:covariance", "process_model covariance",
-                        stats, ctx.state, ctx.state, tag="pm_cov")
+                        stats, ctx.state, ctx.state, tag="pm_cov", floor=fl)
     stats.inc("process_model_contract_evaluated")
     return out
 
